@@ -112,12 +112,14 @@ PROPS = {
                      "by operations on other handles, and after destroying every handle both tables are back to their initial "
                      "sizes; ASan reports use-after-free / double free; non-trivial = at least one apply in the history",
                 assumptions=PROOF_ASSUME),
-    "C13": dict(level="proof", kinds=[("parse", 1)], n=dict(quick=12000, thorough=200000, search=12000),
+    "C13": dict(level="proof", kinds=[("parse", 24), ("nfah_ops", 2), ("bddh", 1)], n=dict(quick=13000, thorough=200000, search=13000),
                 rule="texts: valid files with adversarial names, ranked tree automata, word automata, byte- and token-level "
                      "mutations of them, keyword soups, random bytes (incl. NUL, 0x80, 0xff, VT, FF, CR), shipped small files and "
                      "their mutations; TimbukParser::ParseString is compared with the model parser (accept / throw, the whole "
                      "description, the serialisation byte for byte, parse∘serialise = id); the four loaders must throw or "
-                     "load→dump→load→dump to the same rules and final states under the same names; the watchdog and the "
+                     "load→dump→load→dump to the same rules and final states under the same names; automata that are RESULTS of operations "
+                     "(NFA and both BDD encodings, whose only rule observer is the dump) are dumped, reloaded and dumped again inside "
+                     "operation histories, with the NFA start states also read through the API; the watchdog and the "
                      "sanitizers watch for hangs and memory errors; non-trivial = the text is accepted by the parser",
                 assumptions=PROOF_ASSUME),
     "C19": dict(level="proof", kinds=[("meta", 6), ("metaf", 1)], n=dict(quick=1000, thorough=20000, search=1000), timeout=240,
@@ -200,7 +202,7 @@ def nontrivial(prop, r):
         m = re.search(r"laws=(\d+)", v)
         return "verdict=?" not in v and bool(m) and int(m.group(1)) >= 30
     if prop == "C13":
-        return "accepted=1" in v
+        return "accepted=1" in v or "rt=1" in v
     if prop == "C07":
         return "emptyA=0" in v or c.startswith("bddinclall")
     if prop == "C08":
